@@ -163,6 +163,14 @@ static inline bool valueIs(const HttpHeaderEntry *e, const char *lit)
     return true;
 }
 
+// vacuity label chosen by a (possibly symbolic) condition. optnone: clang otherwise merges the calls into one call whose argument
+// is a select between string literals, which the engine cannot resolve to a label
+__attribute__((optnone, noinline)) static void reachIf(const bool c, const char *yes, const char *no = nullptr)
+{
+    if (c) vf_reach(yes);
+    else if (no) vf_reach(no);
+}
+
 // ---- the request object
 template <class T> static inline T *rawObject() { return static_cast<T *>(xcalloc(1, sizeof(T))); }
 
@@ -170,12 +178,12 @@ static inline HttpRequest *rawRequest(const Http::MethodType m)
 {
     HttpRequest *r = rawObject<HttpRequest>();
     new (&r->header) HttpHeader(hoRequest);
-    r->method = m;
+    new (&r->method) HttpRequestMethod(m);
     r->http_ver = Http::ProtocolVersion(1, 1);
     r->lastmod = -1;                                       // no cached entry being revalidated
     r->ims = -1;
     r->rangeOffsetLimit = 0;                               // range_offset_limit not configured (skips the ACL evaluation)
-    r->url.absolute_ = SBuf("http://o.example/p");         // cached absolute URI: AnyP::Uri.cc is not needed
+    new (&r->url.absolute_) SBuf("http://o.example/p");       // cached absolute URI: AnyP::Uri.cc is not needed
     r->peer_domain = xstrdup("o.example");                 // Host: value (cache_peer forceddomain=); avoids AnyP::Uri::authority()
     r->client_addr.setNoAddr();                            // X-Forwarded-For gets "unknown"
     r->pstate = Http::Message::psParsed;
